@@ -229,6 +229,9 @@ func runC20(c *mon.Ctx) {
 				if rng.Intn(4) == 0 {
 					m = 1 + rng.Intn(n+2)
 				}
+				if rng.Intn(12) == 0 {
+					m = []int{1 << 10, 1 << 16, 1 << 20, 1<<31 - 1, 257, 512, 1023}[rng.Intn(7)] // far more workers allowed than iterations
+				}
 				delay := rng.Intn(3)
 				c20call(c, n, m, false, delay, rng.Uint64())
 				cl, nt := c20class(n, m, delay, false)
